@@ -17,7 +17,9 @@ func init() { Commands["onlyonce"] = cmdOnlyOnce }
 // undecodable snapshot or its snapshot vanishes.
 func cmdOnlyOnce(args []string) error {
 	R := NewResult()
-	sig := func(class string) map[string]interface{} { return map[string]interface{}{"prop": "C16", "class": class} }
+	sig := func(class string) map[string]interface{} {
+		return map[string]interface{}{"prop": "C16", "class": class}
+	}
 	for sc := 0; sc < 6; sc++ {
 		native := sc%2 == 0
 		w, err := NewWorld(native, nil, Concs()[0], KeyConcs()[0], R)
